@@ -234,8 +234,6 @@ class Engine:
     def __init__(self, mod, max_steps=3_000_000, solver_timeout_ms=120000):
         self.mod = mod
         self.sl = SolverLayer(solver_timeout_ms)
-        self.icache = {}
-        self.fcode = {}          # function name -> {label: [parsed instr]}
         self.next_obj = 1
         self.next_base = 0x100000
         self.gobj = {}
@@ -626,20 +624,31 @@ class Engine:
 
     def load_symoff(self, st, o, ty, n, off, work):
         if isinstance(o.data, bytes):
+            if n not in (1, 2, 4, 8):
+                raise PathEnd("unsupported", "symbolic-index read of %d bytes from constant table %s" % (n, o.name))
             key = (o.id, n)
-            f = self.tables.get(key)
-            if f is None:
-                f = z3.Function("tab_%d_%d" % (o.id, n), z3.BitVecSort(64), z3.BitVecSort(8 * n))
-                self.tables[key] = f
+            ent = self.tables.get(key)
+            nent = o.size // n
+            kbits = max(nent - 1, 1).bit_length()
+            sh = n.bit_length() - 1
+            if ent is None:
+                f = z3.Function("tab_%d_%d" % (o.id, n), z3.BitVecSort(kbits), z3.BitVecSort(8 * n))
                 d = o.data
-                ents = [(k, int.from_bytes(d[k:k + n], "little")) for k in range(0, o.size - n + 1, n)]
-                self.sl.add_table(f, ents, 8 * n)
+                ents = [(k, int.from_bytes(d[k * n:k * n + n], "little")) for k in range(nent)]
+                self.sl.add_table(f, ents, 8 * n, kbits)
                 self.stats["table_facts"] += len(ents)
+                self.tables[key] = f
+            else:
+                f = ent
             if n > 1:
-                mis = self.feasible(st, z3.URem(off, bvv(n, 64)) != 0)
+                mis = self.feasible(st, z3.Extract(sh - 1, 0, off) != 0)
                 if mis is not None:
                     raise PathEnd("unsupported", "unaligned symbolic-index read of constant table %s" % o.name)
-            x = f(off)
+            # check_access has shown  off <= size - n  on this path, so the entry number fits kbits bits
+            idx = z3.simplify(z3.Extract(sh + kbits - 1, sh, off))
+            lo, hi = self.index_bounds(st, idx, nent)
+            self.sl.ensure_table_range(f.name(), lo, hi)
+            x = f(idx)
             if ty.k == "int" and ty.n < 8 * n:
                 x = z3.Extract(ty.n - 1, 0, x)
                 if ty.n == 1:
@@ -650,6 +659,43 @@ class Engine:
         # mutable object: concretise the offset by forking over its feasible values
         k = self.concretize(st, work, off)
         return self.load(st, ty, Ptr(o.id, k), work)
+
+    def index_bounds(self, st, idx, nent):
+        """[min, max] of the bit-vector term idx over the current path condition, decided by the solver
+        (binary search; the queries are cached across sibling paths).  Falls back to the whole table when the
+        index itself depends on a table."""
+        sl = self.sl
+        if nent <= 512:
+            return 0, nent - 1
+        # an index that is itself computed from a table value cannot be bounded without table reasoning:
+        # assert the whole table.  (If only its slice involves tables the bounds queries are heavy, but they run
+        # against the facts asserted so far, which a sharded job keeps small, and are cached across sibling paths.)
+        if sl.info(idx)[1]:
+            return 0, nent - 1
+        w = idx.size()
+        v0 = sl.eval_bv(st.model, idx)
+        if v0 is None:
+            return 0, nent - 1
+        lo, hi = 0, v0
+        while lo < hi:
+            mid = (lo + hi) // 2
+            m = self.sl.check(st, z3.ULE(idx, bvv(mid, w)))
+            if m is None:
+                lo = mid + 1
+            else:
+                v = sl.eval_bv(m, idx)
+                hi = v if v is not None and v <= mid else mid
+        mn = lo
+        lo, hi = v0, min(nent - 1, (1 << w) - 1)
+        while lo < hi:
+            mid = (lo + hi + 1) // 2
+            m = self.sl.check(st, z3.UGE(idx, bvv(mid, w)))
+            if m is None:
+                hi = mid - 1
+            else:
+                v = sl.eval_bv(m, idx)
+                lo = v if v is not None and mid <= v <= hi else mid
+        return mn, lo
 
     def store(self, st, ty, v, p, work=None):
         m = self.mod
@@ -934,237 +980,9 @@ class Engine:
             raise PathEnd("unsupported", "icmp " + pred)
         return simp(r)
 
-    # ------------------------------------------------------------ instruction parsing
-    def parse_instr(self, text):
-        ins = self.icache.get(text)
-        if ins is not None:
-            return ins
-        t = text
-        j = t.find(", !")
-        if j >= 0:
-            t = t[:j]
-        toks = tokenize(t.strip())
-        p = P(self.mod, toks)
-        dst = None
-        if p.peek(1)[1] == "=":
-            dst = p.next()[1]
-            p.next()
-        op = p.next()[1]
-        if op in ("tail", "musttail", "notail"):
-            op = p.next()[1]
-        ins = self._parse_op(p, op, dst)
-        self.icache[text] = ins
-        return ins
-
-    def _parse_op(self, p, op, dst):
-        if op in ("add", "sub", "mul", "udiv", "sdiv", "urem", "srem", "shl", "lshr", "ashr", "and", "or", "xor"):
-            flags = []
-            while p.peek()[1] in ("nuw", "nsw", "exact", "disjoint"):
-                flags.append(p.next()[1])
-            ty = p.type()
-            a = p.const(ty)
-            p.expect(",")
-            b = p.const(ty)
-            return ("bin", dst, op, ty, a, b, tuple(flags))
-        if op == "icmp":
-            if p.peek()[1] == "samesign":
-                p.next()
-            pred = p.next()[1]
-            ty = p.type()
-            a = p.const(ty)
-            p.expect(",")
-            b = p.const(ty)
-            return ("icmp", dst, pred, ty, a, b)
-        if op in ("zext", "sext", "trunc", "bitcast", "ptrtoint", "inttoptr", "addrspacecast"):
-            while p.peek()[1] in ("nneg", "nuw", "nsw"):
-                p.next()
-            ft = p.type()
-            v = p.const(ft)
-            p.expect("to")
-            tt = p.type()
-            return ("cast", dst, op, ft, v, tt)
-        if op == "load":
-            while p.peek()[1] in ("atomic", "volatile"):
-                p.next()
-            ty = p.type()
-            p.expect(",")
-            pt = p.type()
-            a = p.const(pt)
-            return ("load", dst, ty, a)
-        if op == "store":
-            while p.peek()[1] in ("atomic", "volatile"):
-                p.next()
-            ty = p.type()
-            v = p.const(ty)
-            p.expect(",")
-            pt = p.type()
-            a = p.const(pt)
-            return ("store", ty, v, a)
-        if op == "getelementptr":
-            while p.peek()[1] in ("inbounds", "nuw", "nusw"):
-                p.next()
-            bt = p.type()
-            p.expect(",")
-            pt = p.type()
-            base = p.const(pt)
-            idx = []
-            while p.accept(","):
-                it = p.type()
-                idx.append((it, p.const(it)))
-            return ("gep", dst, bt, base, idx)
-        if op == "phi":
-            ty = p.type()
-            inc = {}
-            while True:
-                p.expect("[")
-                v = p.const(ty)
-                p.expect(",")
-                lab = p.next()[1]
-                p.expect("]")
-                inc[lab] = v
-                if not p.accept(","):
-                    break
-            return ("phi", dst, ty, inc)
-        if op == "select":
-            ct = p.type()
-            c = p.const(ct)
-            p.expect(",")
-            ty = p.type()
-            a = p.const(ty)
-            p.expect(",")
-            ty2 = p.type()
-            b = p.const(ty2)
-            return ("select", dst, ct, c, ty, a, b)
-        if op == "br":
-            if p.peek()[1] == "label":
-                p.next()
-                return ("jmp", p.next()[1])
-            ct = p.type()
-            c = p.const(ct)
-            p.expect(",")
-            p.expect("label")
-            a = p.next()[1]
-            p.expect(",")
-            p.expect("label")
-            b = p.next()[1]
-            return ("br", c, a, b)
-        if op == "switch":
-            ty = p.type()
-            v = p.const(ty)
-            p.expect(",")
-            p.expect("label")
-            d = p.next()[1]
-            p.expect("[")
-            cases = []
-            while not p.accept("]"):
-                ct = p.type()
-                cv = p.const(ct)
-                p.expect(",")
-                p.expect("label")
-                cases.append((cv[1], p.next()[1]))
-            return ("switch", ty, v, d, cases)
-        if op == "ret":
-            ty = p.type()
-            if ty.k == "void":
-                return ("ret", None, None)
-            return ("ret", ty, p.const(ty))
-        if op == "unreachable":
-            return ("unreachable",)
-        if op in ("call", "invoke"):
-            while True:
-                k, v = p.peek()
-                if v in FN_PRE or v in FASTMATH:
-                    p.next()
-                    if v == "cc":
-                        p.next()
-                elif v in PARAM_ATTRS_ARG:
-                    p.next()
-                    if p.peek()[1] == "(":
-                        p.skip_balanced()
-                    elif p.peek()[0] == "num":
-                        p.next()
-                else:
-                    break
-            rt = p.type()
-            callee = p.next()[1]
-            asm = None
-            if callee == "asm":
-                while p.peek()[1] in ("sideeffect", "alignstack", "inteldialect", "unwind"):
-                    p.next()
-                asm = p.next()[1]
-                p.expect(",")
-                asm = (asm, p.next()[1])
-                callee = "@llvm.inline.asm"
-            p.expect("(")
-            args = []
-            if not p.accept(")"):
-                while True:
-                    at = p.type()
-                    p.skip_param_attrs()
-                    if at.k == "metadata":
-                        p.const(at)
-                        args.append((at, ("meta",)))
-                    else:
-                        args.append((at, p.const(at)))
-                    if p.accept(")"):
-                        break
-                    p.expect(",")
-            normal = None
-            if op == "invoke":
-                # ... to label %a unwind label %b
-                while p.peek()[1] != "to":
-                    p.next()
-                p.next()
-                p.expect("label")
-                normal = p.next()[1]
-            if asm is not None:
-                return ("asm", dst, rt, asm[0], asm[1], args, normal)
-            return ("call", dst, rt, callee, args, normal)
-        if op == "alloca":
-            ty = p.type()
-            cnt = None
-            align = 1
-            while p.accept(","):
-                if p.peek()[1] == "align":
-                    p.next()
-                    align = int(p.next()[1])
-                else:
-                    ct = p.type()
-                    cnt = (ct, p.const(ct))
-            return ("alloca", dst, ty, cnt, align)
-        if op == "extractvalue":
-            ty = p.type()
-            v = p.const(ty)
-            idx = []
-            while p.accept(","):
-                idx.append(int(p.next()[1]))
-            return ("extractvalue", dst, ty, v, idx)
-        if op == "insertvalue":
-            ty = p.type()
-            v = p.const(ty)
-            p.expect(",")
-            et = p.type()
-            ev = p.const(et)
-            idx = []
-            while p.accept(","):
-                idx.append(int(p.next()[1]))
-            return ("insertvalue", dst, ty, v, et, ev, idx)
-        if op == "freeze":
-            ty = p.type()
-            v = p.const(ty)
-            return ("freeze", dst, ty, v)
-        if op == "fence":
-            return ("nop",)
-        return ("unsupported", op)
-
+    # ------------------------------------------------------------ instruction parsing (shared cache)
     def code_of(self, fn):
-        c = self.fcode.get(fn.name)
-        if c is None:
-            c = {}
-            for lab, lines in fn.blocks.items():
-                c[lab] = [self.parse_instr(t) for t in lines]
-            self.fcode[fn.name] = c
-        return c
+        return self.mod.code.code_of(fn)
 
     # ------------------------------------------------------------ execution
     def run(self, entry, params=None, path_budget=None, time_budget=None):
